@@ -7,7 +7,7 @@
    accounting of ChangePeerV2Leave.ConfVerChanged. *)
 From Coq Require Import String.
 From PDV Require Import lib.Base gen.Gen_C08 gen.Gen_C09 model.C08_Steps model.C08_Builder model.C09_OpCtl
-     proof.C08_BuilderProof proof.C09_StatusProof.
+     proof.C08_BuilderProof proof.C09_StatusProof proof.C09_OwnGeneral.
 Local Open Scope Z_scope.
 
 (* deliver what was sent, then let the leader report: repeated *)
@@ -69,6 +69,50 @@ Proof.
   - exact (forall_inputs_spec 2 own_case_ok own_ok_2 ov ol tv tl lok m force Hov Hol Htv Htl Hlok Hm).
   - exact (forall_inputs_spec 3 own_case_ok own_ok_3 ov ol tv tl lok m force Hov Hol Htv Htl Hlok Hm).
 Qed.
+
+(* ---------- the builder's plans never lower what an earlier step counts (bounded: <= 3 stores) ---------- *)
+Definition mono_case_ok (i : binput) : bool :=
+  match build i with
+  | Built ss _ _ => monotone_from [] (i_region i) ss
+  | _ => true
+  end.
+
+Lemma mono_ok_1 : forall_inputs 1 mono_case_ok = true.
+Proof. vm_cast_no_check (@eq_refl bool true). Qed.
+Lemma mono_ok_2 : forall_inputs 2 mono_case_ok = true.
+Proof. vm_cast_no_check (@eq_refl bool true). Qed.
+Lemma mono_ok_3 : forall_inputs 3 mono_case_ok = true.
+Proof. vm_cast_no_check (@eq_refl bool true). Qed.
+
+Lemma builder_plans_monotone_bounded_pf :
+  forall n, (1 <= n <= 3)%nat ->
+  forall ov ol tv tl lok m force,
+    In ov (vectors role_opts n) -> In ol (voters_of (origin_of ov)) ->
+    In tv (vectors role_opts n) -> In tl (0 :: voters_of (target_of tv)) ->
+    In lok (vectors [true; false] n) -> In m modes ->
+  forall ss kl kr,
+    build (mk_input n ov ol tv tl lok m force) = Built ss kl kr ->
+    monotone_from [] (i_region (mk_input n ov ol tv tl lok m force)) ss = true.
+Proof.
+  intros n Hn ov ol tv tl lok m force Hov Hol Htv Htl Hlok Hm ss kl kr Hb.
+  assert (Hc : mono_case_ok (mk_input n ov ol tv tl lok m force) = true).
+  { destruct n as [|[|[|[|n]]]]; try lia.
+    - exact (forall_inputs_spec 1 mono_case_ok mono_ok_1 ov ol tv tl lok m force Hov Hol Htv Htl Hlok Hm).
+    - exact (forall_inputs_spec 2 mono_case_ok mono_ok_2 ov ol tv tl lok m force Hov Hol Htv Htl Hlok Hm).
+    - exact (forall_inputs_spec 3 mono_case_ok mono_ok_3 ov ol tv tl lok m force Hov Hol Htv Htl Hlok Hm). }
+  unfold mono_case_ok in Hc. rewrite Hb in Hc. exact Hc.
+Qed.
+
+(* a plan that undoes its own step: accepted by the C08 checker, no peer re-added under its old id, and still judged
+   stale on its own steps (the add no longer counts once the peer is removed again) *)
+Definition undo_region : region := Region [Peer 1 101 Voter; Peer 2 102 Voter] 1 5 0.
+Definition undo_plan : list step := [AddLearner 4 44; RemovePeer 4 44; TransferLeader 1 2].
+Definition undo_goal : goal := Goal (placement (peers undo_region)) 2 2.
+
+Lemma undo_plan_facts :
+  plan_ok undo_goal undo_region undo_plan = true /\ readded_same_id undo_plan = false
+  /\ plan_runs_ok undo_region undo_plan = false /\ monotone_from [] undo_region undo_plan = false.
+Proof. vm_compute. repeat split; reflexivity. Qed.
 
 (* ---------- a peer removed and re-added with the same id: judged stale on its own steps ---------- *)
 (* JointConsensus unsupported; {1 voter, 4 voter leader, 5 voter}; DemoteVoter(5) + AddPeer(6 learner).
